@@ -1922,7 +1922,7 @@ class AstEval:
         if asyncio.iscoroutinefunction(func):
             return await func(*args, **kwargs)
         if callable(func):
-            if func == time.sleep:  # pylint: disable=comparison-with-callable
+            if func is time.sleep:
                 _LOGGER.warning(
                     "%s calls blocking time.sleep(); replaced with asyncio.sleep()", self.filename
                 )
